@@ -11,6 +11,7 @@ import (
 	"os"
 	"path"
 	"regexp"
+	"runtime/debug"
 	"sort"
 	"strings"
 	"testing"
@@ -84,8 +85,10 @@ var hashRe = regexp.MustCompile(`[A-Z2-7]{8}`)
 var placeholderRe = regexp.MustCompile(`[A-Za-z0-9_-]{16}[AC][0-9]{8}`)
 var markRe = regexp.MustCompile(`MARK_[a-z]+[0-9]*`)
 
-func isChunk(p string) bool   { return strings.HasSuffix(p, ".js") || strings.HasSuffix(p, ".css") }
-func isSidecar(p string) bool { return strings.HasSuffix(p, ".map") || strings.HasSuffix(p, ".LEGAL.txt") }
+func isChunk(p string) bool { return strings.HasSuffix(p, ".js") || strings.HasSuffix(p, ".css") }
+func isSidecar(p string) bool {
+	return strings.HasSuffix(p, ".map") || strings.HasSuffix(p, ".LEGAL.txt")
+}
 
 func isExternalSpec(p *projgen.Project, spec string) bool {
 	if strings.HasPrefix(spec, "https://ext.example/") {
@@ -350,7 +353,20 @@ func trailerStripped(b []byte) string {
 	return strings.Join(lines, "\n")
 }
 
-func judge(c Case) vdrv.Verdict {
+// harness panics must never pass silently nor become verdicts: they are counted and turn the run into an INFRA error.
+var harnessPanics []string
+
+func judge(c Case) (v vdrv.Verdict) {
+	defer func() {
+		if r := recover(); r != nil {
+			harnessPanics = append(harnessPanics, fmt.Sprintf("%v\n%s", r, debug.Stack()))
+			v = vdrv.Skip("harness-panic")
+		}
+	}()
+	return judgeCase(c)
+}
+
+func judgeCase(c Case) vdrv.Verdict {
 	p1 := c.Project
 	for _, tmpl := range []string{p1.Opts.EntryNames, p1.Opts.ChunkNames, p1.Opts.AssetNames} {
 		if !strings.Contains(tmpl, "[hash]") {
@@ -662,12 +678,19 @@ var editKinds = []string{"code", "code", "comment", "legal", "legal", "asset", "
 
 func genEdit(t *rapid.T, p *projgen.Project) Edit {
 	kind := rapid.SampledFrom(editKinds).Draw(t, "editkind")
+	reach := projgen.Reachable(p)
 	pick := func(label string, pred func(f projgen.File) bool) (projgen.File, bool) {
-		var c []projgen.File
+		var c, all []projgen.File
 		for _, f := range p.Files {
 			if pred(f) {
-				c = append(c, f)
+				all = append(all, f)
+				if reach[f.Path] {
+					c = append(c, f)
+				}
 			}
+		}
+		if len(c) == 0 || rapid.IntRange(0, 9).Draw(t, "anyfile") == 9 {
+			c = all // sometimes (and when nothing suitable is reachable) edit a file the build never reads
 		}
 		if len(c) == 0 {
 			return projgen.File{}, false
@@ -782,6 +805,9 @@ func TestCheck(t *testing.T) {
 	defer func() { H.Finish(complete) }()
 	H.RunReplays(t, subs)
 	H.Sub(t, "pair", runPair)
+	if len(harnessPanics) > 0 {
+		t.Fatalf("INFRA: the harness panicked %d time(s); first: %s", len(harnessPanics), harnessPanics[0])
+	}
 	complete = true
 }
 
